@@ -147,9 +147,30 @@ package interp
 //@ func (*ExecEnv).expandPath
 //@   requires f != nil
 
+// ---- field splitting (C14) ----
+//
+// (1) the separator set is the value of IFS, or space-tab-newline when IFS is
+// unset, and an empty IFS returns the field untouched; (2) only unquoted
+// segments are cut; (3) no IFS character is left inside an emitted piece:
+// every piece s[i:j] / s[i:] handed on contains no character of IFS
+// (boundary(s, p): p is the start of a character of s).  The exact
+// white-space collapsing automaton is compared with a reference up to a
+// bound (bounded stand-in), not proved.
 //@ func (*ExecEnv).split
+//@   props C14 C19
 //@   requires f != nil
 //@   loop "for j, r := range s" invariant 0 <= i && i <= rangepos()
+//@   loop "for j, r := range s" invariant[C14] no-ifs-left: forall p: i <= p && p < rangepos() && boundary(s, p) ==> !containsrune(ifs, rune_at(s, p))
+//@   ensures[C14] empty-ifs: has(env.vars, "IFS") && old(env.vars["IFS"].Value) == "" ==> len(result) == 1 && result[0] == f
+//@   assert[C14] at call strings.ContainsRune: ifs-source: arg0 == (has(env.vars, "IFS") ? env.vars["IFS"].Value : " \t\n")
+//@   assert[C14] at call interp.(*field).join#2: piece-has-no-ifs: forall p: i <= p && p < j && boundary(s, p) ==> !containsrune(ifs, rune_at(s, p))
+//@   assert[C14] at call interp.(*field).join#3: tail-has-no-ifs: forall p: i <= p && p < len(s) && boundary(s, p) ==> !containsrune(ifs, rune_at(s, p))
+//@   assert[C14] at call interp.(*field).join#1: quoted-kept-whole: arg1 == f.b[i] && arg2
+
+//@ func (*field).empty
+//@   props C14 C19
+//@   loop "for i := 0; i < len(f.b); i++" invariant[C14] forall j: 0 <= j && j < i ==> !f.quote[j] && f.b[j] == ""
+//@   ensures[C14] result == (forall j: 0 <= j && j < len(f.b) ==> !f.quote[j] && f.b[j] == "")
 
 //@ func (*ExecEnv).join
 //@   ensures result != nil
